@@ -375,6 +375,17 @@ def wrap_single(rng, it):
     y += "format:\n  %s:\n    default:\n      rank-order: [%s]\n" % (out, ", ".join(outr))
     for r in outr:
         y += "      %s:\n        format: C\n" % r
+    if not any(k_.startswith("(") for k_ in parts):
+        # formats of (partitioned) input tensors, written in the order the loop nest iterates their levels
+        for t, rs in es["decl"].items():
+            if t == out or not rs or rng.random() < 0.4:
+                continue
+            order = [x for x in loop if (x.rstrip("0123456789") if x.rstrip("0123456789") in parts else x) in rs]
+            if not order:
+                continue
+            y += "  %s:\n    default:\n      rank-order: [%s]\n" % (t, ", ".join(order))
+            for r in order:
+                y += "      %s:\n        format: %s\n        pbits: 32\n" % (r, rng.choice(["C", "U"]))
     it2 = dict(it)
     it2.update({"yaml": y, "kind": it["kind"] + "+hw", "arch": True, "mapping": mp,
                 "meta": {"intersector": bound, "loop": loop}})
